@@ -141,10 +141,6 @@ theorem erase4_insert_metadata (v : J) (kvs : Kvs) : erase4 (J.insert "metadata"
   rw [erase_insert_other v kvs (by decide : "metadata" ≠ "apiVersion"),
     erase_insert_other v _ (by decide : "metadata" ≠ "kind"), erase_insert_same]
 
-/-- extra (handler) fields that stay out of `status`. -/
-def ExtraAvoids (top : String) (extra : List (List String)) : Prop :=
-  ∀ f, f ∈ extra → ∃ k ks, f = k :: ks ∧ k ≠ top
-
 theorem sameView_insert_status (kvs : Kvs) (v : J) (extra : List (List String)) (hx : ExtraAvoids "status" extra) :
     SameView extra (J.insert "status" v kvs) kvs := by
   refine ⟨erase4_insert_status v kvs, ?_, ?_⟩
@@ -170,11 +166,6 @@ theorem sameView_erase_status (kvs : Kvs) (extra : List (List String)) (hx : Ext
     rw [resolveE_obj_cons, resolveE_obj_cons, lookup_erase_other kvs hk]
   · simp only [isDRS, get?, lookup_erase_other kvs (by decide : "kind" ≠ "status"),
       lookup_erase_other kvs (by decide : "metadata" ≠ "status")]
-
-/-- extra fields may reach into `metadata` only below keys whose value is the same in `m` and `m'`. -/
-def ExtraMetaOK (m m' : Kvs) (extra : List (List String)) : Prop :=
-  ∀ f, f ∈ extra → (∃ k ks, f = k :: ks ∧ k ≠ "metadata") ∨
-    (∃ k2 ks, f = "metadata" :: k2 :: ks ∧ lookup k2 m' = lookup k2 m)
 
 theorem sameView_metadata (kvs m m' : Kvs) (extra : List (List String))
     (hm : lookup "metadata" kvs = some (.obj m))
